@@ -95,7 +95,9 @@ def check_string(ureg, R, s, *, deep=False, fraction_reg=None):
         if sy != ("ok", _unit_symbol(R, c)):
             raise Violation("wrong_symbol_for_exact_spelling", f"get_symbol({s!r}) = {sy[1]!r}, definition {_unit_symbol(R, c)!r}")
         if deep:
-            u = ureg.parse_units(s)
+            s_, u = attempt(ureg.parse_units, s)
+            if s_ == "err":
+                raise Violation(f"written_spelling_not_parseable:{exc_class(u)}", f"parse_units({s!r}) raised {type(u).__name__}: {u}; the definitions give this spelling to {c!r}")
             if dict(u._units) != {c: 1}:
                 raise Violation("parse_units_differs_from_get_name", f"parse_units({s!r}) = {dict(u._units)}")
             if s not in ureg:
@@ -166,7 +168,7 @@ def run_cross(task, tier, seed, col):
             for suf in ("", "s"):
                 s = p + u + suf
                 h = khash((s, seed))
-                deep = h % deep_stride == 0
+                deep = h % deep_stride == 0 or not (p or suf)  # every spelling written in the definitions also goes through parse_units / in
                 exp = expected(R, s)
                 cls = exp[0] if exp[0] != "readings" else ("one_reading" if len(exp[1]) == 1 else "ambiguous")
                 # non-trivial: a prefix or plural, or a string with several syntactic decompositions
